@@ -440,6 +440,19 @@ def vmdk(chk: Check):
     chk.decide(bool(rets), "K-PROV", "vmdk:descriptor-returned", pctx.func, "parse returns a DiskDescriptor")
 
 
+def _tag_of(chk: Check, ctx, node):
+    """The element name a find()/iterfind() call asks for: a literal, or a name that resolves to one (a helper's parameter)."""
+    if isinstance(node, ast.Constant):
+        return node.value
+    try:
+        t = chk.R.expr(ctx, node)
+    except Exception:
+        return None
+    if S.is_const(t) and isinstance(t[1], str):
+        return t[1]
+    return None
+
+
 def parallels(chk: Check):
     R = chk.R
     rel = "disk/hdd.py"
@@ -452,14 +465,15 @@ def parallels(chk: Check):
         got = set()
         for n in _own_nodes(ctx.func):
             if isinstance(n, ast.Call) and isinstance(n.func, ast.Attribute) and n.func.attr in ("find", "iterfind", "findall", "findtext") and n.args:
-                if isinstance(n.args[0], ast.Constant):
-                    got.add(n.args[0].value)
+                name = _tag_of(chk, ctx, n.args[0])
+                if name is not None:
+                    got.add(name)
         chk.decide(got == tags, "K-PROV", f"parallels:{q.split('.')[0]}-elements", ctx.func, f"reads child elements {sorted(tags)}", expected=str(sorted(tags)), found=str(sorted(got)))
     dctx = chk.func(rel, "Descriptor.__init__")
     got = set()
     for n in _own_nodes(dctx.func):
-        if isinstance(n, ast.Call) and isinstance(n.func, ast.Attribute) and n.func.attr == "find" and n.args and isinstance(n.args[0], ast.Constant):
-            got.add(n.args[0].value)
+        if isinstance(n, ast.Call) and isinstance(n.func, ast.Attribute) and n.func.attr == "find" and n.args and _tag_of(chk, dctx, n.args[0]) is not None:
+            got.add(_tag_of(chk, dctx, n.args[0]))
     chk.decide(got == {"StorageData", "Snapshots"}, "K-PROV", "parallels:descriptor-sections", dctx.func, "StorageData and Snapshots sections", found=str(sorted(got)))
     # field order of the dataclass constructors: Storage(start, end, images), Image(guid, type, file), Shot(guid, parent)
     order = {"Storage._from_xml": ["Start", "End", "Image"], "Image._from_xml": ["GUID", "Type", "File"], "Shot._from_xml": ["GUID", "ParentGUID"]}
